@@ -39,15 +39,22 @@
                         and the contest-level errors of the run; FALSE = the weight-dependent part is computed by the
                         first summary after a run and kept on the model object (seeded change C12_D)
 
+     WeightsRebuilt     the baseline weights of a margin run are the two party votes whether or not the caller's frame
+                        already carries the margin column (repair of finding F17); FALSE = the code as found: a run adds
+                        the column to the CALLER'S frame, a later run on the same frame object finds it, does not rebuild
+                        it and keeps the turnout as weights
+
+   The caller's baseline frame is an object that outlives a call (`proc.frame`: "pristine" or "worked" = an earlier
+   margin run has left its columns in it); a new process loads a pristine frame.
    A national summary has its own argument tuple (weights / base / levels), independent of the arguments of the
    estimate run it follows: its key is (arguments of the run, arguments of the summary). *)
 EXTENDS Naturals, Sequences, FiniteSets, TLC
 
 CONSTANTS Estimators, ArgIds, DefaultArgIds, HashSeeds,
           SigmaSeeded, SplitSeeded, BootSeeded, FreshModelPerCall, DefaultsUntouched, OrderedIteration,
-          SummaryStateless
+          SummaryStateless, WeightsRebuilt
 
-VARIABLES proc,     \* [id, hash, defaults]   defaults = content of the default-argument objects
+VARIABLES proc,     \* [id, hash, defaults, frame]   defaults = content of the default-argument objects; frame = the caller's baseline frame
           client,   \* [serial, model]        model = NoModel or [est, eff, draws, ran]
           entropy,  \* position of the process-global stream (monotone, never repeats, survives nothing)
           seen,     \* [key -> set of digests]
@@ -100,13 +107,14 @@ Digest(e, a, fresh) ==
     sigma |-> IF e = "gaussian" THEN (IF SigmaSeeded THEN Seeded ELSE Entropy(entropy + 1)) ELSE NoSrc,
     draws |-> DrawsOf(e, a, fresh),
     order |-> Order,
-    weights |-> "-" ]
+    weights |-> "-",
+    bweights |-> IF e = "bootstrap" THEN (IF ~WeightsRebuilt /\ proc.frame = "worked" THEN "turnout" ELSE "two party") ELSE "-" ]
 
 \* the weights a summary with argument tuple sa effectively uses
 WeightsUsed(sa) == IF SummaryStateless \/ client.model.nat = "-" THEN sa ELSE client.model.nat
 NatDigest(sa) ==
   [ est |-> "summary", eff |-> client.model.eff, split |-> NoSrc, sigma |-> NoSrc,
-    draws |-> client.model.draws, order |-> Order, weights |-> WeightsUsed(sa) ]
+    draws |-> client.model.draws, order |-> Order, weights |-> WeightsUsed(sa), bweights |-> "-" ]
 
 Record(k, d) == seen' = [seen EXCEPT ![k] = @ \cup {d}]
 
@@ -120,8 +128,8 @@ GetEstimates(e, a, fresh) ==
                                         !.ran   = (e = "bootstrap"),
                                         !.nat   = IF e = "bootstrap" /\ m.ran THEN @ ELSE "-"]]
      /\ entropy' = entropy + 3          \* whatever was read, the global stream never returns to an old position
-     /\ proc' = IF ~DefaultsUntouched /\ a \in DefaultArgIds
-                THEN [proc EXCEPT !.defaults = Append(@, "mutated")] ELSE proc
+     /\ proc' = [proc EXCEPT !.defaults = IF ~DefaultsUntouched /\ a \in DefaultArgIds THEN Append(@, "mutated") ELSE @,
+                              !.frame = IF e = "bootstrap" THEN "worked" ELSE @]   \* a margin run leaves its columns behind
      /\ Record(EstKey(e, a), d)
      /\ hist' = Append(hist, [op |-> "est", est |-> e, arg |-> a, sarg |-> "-", fresh |-> fresh])
 
@@ -138,14 +146,14 @@ NatSummary(sa) ==
 
 \* a new interpreter: new hash seed, pristine default objects, no client; entropy is NOT reset (it is entropy)
 NewProcess(h) ==
-  /\ proc' = [id |-> proc.id + 1, hash |-> h, defaults |-> Pristine]
+  /\ proc' = [id |-> proc.id + 1, hash |-> h, defaults |-> Pristine, frame |-> "pristine"]
   /\ client' = FreshClient(client.serial + 1)
   /\ entropy' = entropy + 1
   /\ hist' = Append(hist, [op |-> "process", est |-> "-", arg |-> "-", sarg |-> "-", fresh |-> TRUE])
   /\ UNCHANGED seen
 
 HInit(h) ==
-  /\ proc = [id |-> 1, hash |-> h, defaults |-> Pristine]
+  /\ proc = [id |-> 1, hash |-> h, defaults |-> Pristine, frame |-> "pristine"]
   /\ client = FreshClient(1)
   /\ entropy = 0
   /\ seen = [k \in Keys |-> {}]
